@@ -538,7 +538,90 @@ def reentrant_case(ctx, case):
     ctx.label('reentrant_disconnect')
 
 
-COMPONENTS = {'dispatch': dispatch_case, 'reentrant': reentrant_case}
+def incoming_disconnect_case(ctx, case):
+    """An incoming listener calls Connection.disconnect() and returns
+    normally: only 'ignore' stops later stages, so the remaining early
+    listeners, the built-in reaction and the ordinary listeners of THAT
+    packet still run, each once.  case {version, n, d, ie: [filter..],
+    io: [filter..], cls: 'ie'|'io', who}: n chat packets arrive in one
+    burst; listener `who` of class `cls` disconnects on the d-th."""
+    from minecraft.networking.packets import clientbound as cb
+    version, n, d = case['version'], case['n'], case['d'] % case['n']
+    ctx.ev()
+    F = filter_classes()
+    lay = dict(servers.packet_info(version, 'chat')[1])
+    burst = []
+    for i in range(n):
+        v = {'json_data': '{"text":"c%d"}' % i, 'position': 0}
+        if 'sender' in lay:
+            v['sender'] = '00000000-0000-0000-0000-000000000001'
+        burst.append(('chat', v))
+    srv = servers.Server({'version': version, 'login': [('success',)],
+                          'play': {'bursts': [burst], 'mode': 'all',
+                                   'end': 'silent'}})
+    world = vnet.World(servers=[srv])
+    log = []
+    did = []
+    groups = {'ie': list(case['ie']), 'io': list(case['io'])}
+    if not groups[case['cls']]:
+        groups[case['cls']] = ['Chat']
+    with vnet.installed(world):
+        conn, o = servers.make_connection(world, allowed_versions={version})
+
+        def make(cls, k):
+            def fn(packet):
+                if not isinstance(packet, cb.play.ChatMessagePacket):
+                    return
+                idx = int(packet.json_data[10:-2])
+                log.append((cls, k, idx))
+                if cls == case['cls'] and idx == d and not did and \
+                        k == case['who'] % len(groups[cls]):
+                    did.append(1)
+                    conn.disconnect()
+            return fn
+        for cls in ('ie', 'io'):
+            for k, t in enumerate(groups[cls]):
+                kw = {'early': True} if cls == 'ie' else {}
+                conn.register_packet_listener(make(cls, k), F[t], **kw)
+        try:
+            conn.connect()
+        except Exception as e:
+            ctx.fail('incoming_disconnect', 'D-connect-raised', case, exc=e)
+            return
+        state = world.settle()
+    if state == 'timeout':
+        from vlib.core import HarnessError
+        raise HarnessError('C13 incoming_disconnect case did not settle')
+    if state != 'done':
+        ctx.fail('incoming_disconnect', 'D-client-%s' % state, case)
+        return
+    if o.exceptions:
+        ctx.fail('incoming_disconnect', 'D-unexpected-error', case,
+                 repr(o.exceptions[0][0]))
+        return
+    full = [('ie', k) for k in range(len(groups['ie']))] + \
+        [('io', k) for k in range(len(groups['io']))]
+    for j in range(n):
+        calls = [(cls, k) for cls, k, idx in log if idx == j]
+        if j <= d:
+            if calls != full:
+                ctx.fail('incoming_disconnect', 'D1D2-incoming-call-log',
+                         dict(case, packet=j), calls, full)
+                return
+        elif calls not in ([], full):
+            ctx.fail('incoming_disconnect', 'D1D2-incoming-call-log',
+                     dict(case, packet=j), calls, 'nothing or %r' % (full,))
+            return
+    if not world.links[0].closed_by_client():
+        ctx.fail('incoming_disconnect', 'D-link-left-open', case)
+        return
+    if len(full) >= 3:
+        ctx.nt('incoming_disconnect', repr(case))
+    ctx.label('incoming_disconnect')
+
+
+COMPONENTS = {'dispatch': dispatch_case, 'reentrant': reentrant_case,
+              'incoming_disconnect': incoming_disconnect_case}
 
 
 # --------------------------------------------------------------- strategies
@@ -697,6 +780,20 @@ def t_reentrant(ctx, n):
         if c.evaluations % 50 == 1:
             c.sample(case, 'reentrant')
     hyp(ctx, 'reentrant', strat, body, n)
+    for v in (757, 340, 47):
+        for cls in ('ie', 'io'):
+            for d in range(3):
+                incoming_disconnect_case(ctx, {
+                    'version': v, 'n': 3, 'd': d, 'ie': ['Chat', 'Packet'],
+                    'io': ['Packet', 'Chat'], 'cls': cls, 'who': d})
+    strat2 = st.fixed_dictionaries({
+        'version': st.sampled_from([757, 340, 47]),
+        'n': st.integers(1, 6), 'd': st.integers(0, 5),
+        'ie': st.lists(st.sampled_from(['Packet', 'Chat']), max_size=3),
+        'io': st.lists(st.sampled_from(['Packet', 'Chat']), max_size=3),
+        'cls': st.sampled_from(['ie', 'io']), 'who': st.integers(0, 2)})
+    hyp(ctx, 'incoming_disconnect', strat2,
+        lambda c, case: incoming_disconnect_case(c, case), max(40, n // 2))
 
 
 def ignore_success_case(ctx, case):
